@@ -125,7 +125,7 @@ func (p *{{$ProcessName}}) Process(ctx context.Context, seqId int32, iprot, opro
 
 		{{- if .Throws}}
 		switch v := err2.(type) {
-		{{- range .Throws}}
+		{{- range (DistinctThrowTypes .Throws)}}
 		case {{.GoTypeName}}:
 			result.{{($ResType.Field .Name).GoName}} = v
 		{{- end}}
